@@ -469,6 +469,11 @@ def generate(rng, cfg):
         for v in b.vars:
             if rng.random() < 0.8:
                 prog["output"].append(["o_" + v, ["ctx", v]])
+        if len(b.vars) >= 2 and rng.random() < 0.25:
+            # an output named like a context variable, read again by a later output
+            a_, b_ = b.vars[0], b.vars[1]
+            prog["output"].append([b_, ["ctx", a_]])
+            prog["output"].append(["o_chain", ["ctx", b_]])
         if g["dict_republish"]:
             prog["output"].append(["o_dv", ["ctx", "dv"]])
         if rng.random() < 0.3:
